@@ -155,6 +155,9 @@ static var body_fmt(var args) {
     if (me % 2) { print_to(out, 0, "a%ib%sc", $I(me * 10 + r), $S("xy")); snprintf(expect, sizeof expect, "a%db%sc", me * 10 + r, "xy"); }
     else { print_to(out, 0, "<<%s>>=%i;%i", $S("k"), $I(me), $I(r)); snprintf(expect, sizeof expect, "<<%s>>=%d;%d", "k", me, r); }
     if (strcmp(c_str(out), expect) != 0) sch_fail("formatted-text-differs-from-solo-run", "thread %d formatted \"%s\", alone it produces \"%s\"", me, c_str(out), expect);
+    /* and reads its own text back */
+    { var iv = $I(-1); var e2 = VF_CATCH(scan_from(out, 0, me % 2 ? "a%i" : "<<k>>=%i", iv));
+      if (e2 || c_int(iv) != (me % 2 ? me * 10 + r : me)) sch_fail("scanned-value-differs-from-solo-run", "thread %d read %" PRId64 " back from its own text \"%s\"", me, c_int(iv), c_str(out)); }
     for (const char* q = c_str(out); *q; q++) d = d * 131 + *q;
   }
   volatile int64_t dd = d;
@@ -240,16 +243,25 @@ static void scn_workers(void) {
 
 /* the parent allocates and collects while a child starts, works and exits */
 static int managed_thread;   /* the Thread object itself is collector-managed and held on the parent's stack */
+static int heap_args;        /* the arguments are handed over as a heap Tuple the caller owns (call_with), not as the stack tuple of the call() macro */
 static int seed_tls;         /* the parent installs a collector-managed value in the child's thread-local storage before starting it */
 static void scn_parent_collects(void) {
   var th = managed_thread ? (var)new(Thread, $(Function, the_body)) : (var)new_raw(Thread, $(Function, the_body));
   /* (a raw Thread object is invisible to the parent's collector, so only a managed one can keep a managed value alive) */
   if (seed_tls) set(th, $S("seed"), managed_thread ? (var)new(Int, $I(7777)) : (var)new_raw(Int, $I(7777)));
-  if (the_body == body_args) call(th, ARG1, ARG2); else call(th);
+  var hargs = NULL;
+  if (the_body == body_args && heap_args) { hargs = new_raw(Tuple, ARG1, ARG2); call_with(th, hargs); }
+  else if (the_body == body_args) call(th, ARG1, ARG2); else call(th);
   var keep[4];
   for (int i = 0; i < 12; i++) { var o = new(TObj, $I(i)); if (i % 3 == 0) keep[i / 3] = o; }
   for (int k = 0; k < 4; k++) { struct TObj* o = keep[k]; if (o->owner != 0 || tobj_state[o->serial] != 1) sch_fail("live-object-finalised-by-another-threads-work", "main thread: an object it still holds was finalised"); }
   join(th);
+  if (hargs) {
+    /* the caller's own object: still its to read and to delete, exactly once */
+    var e = VF_CATCH({ if (len(hargs) != 2 || get(hargs, $I(0)) != ARG1 || get(hargs, $I(1)) != ARG2) sch_fail("callers-argument-object-changed", "the heap Tuple the caller passed to call_with no longer holds its two items after the thread finished"); });
+    if (e) sch_fail("callers-argument-object-released-by-the-thread", "reading the caller's own argument Tuple after join raised %s", vf_exc_name(e));
+    del_raw(hargs);
+  }
   if (!done_flag[1]) sch_fail("join-returned-before-thread-finished", "join returned before the thread's function finished");
   if (result[1] != the_solo[1]) sch_fail("thread-result-differs-from-solo-run", "%s thread computed %" PRId64 ", alone it computes %" PRId64, the_body_name, result[1], the_solo[1]);
   check_teardown(1);
@@ -339,6 +351,22 @@ static void scn_abandon(void) {
   sch->digest = (uint64_t)entered;
   snprintf(sch->obs, sizeof sch->obs, "abandoned mutex: %d sections entered afterwards", entered);
   /* the Mutex is still locked by a thread that no longer exists: it is not destroyed */
+}
+
+/* one Thread object run twice (call, join, call) while another thread is alive in between */
+static void scn_rerun(void) {
+  var t = new_raw(Thread, $(Function, body_exc)), u = new_raw(Thread, $(Function, body_exc));
+  call(t); join(t);
+  call(u);
+  call(t);
+  join(u); join(t);
+  for (int id = 1; id <= 3; id++) {
+    if (!done_flag[id]) sch_fail("join-returned-before-thread-finished", "run %d did not finish", id);
+    if (result[id] != the_solo[1]) sch_fail("thread-result-differs-from-solo-run", "run %d of the exception workload computed %" PRId64 ", alone it computes %" PRId64, id, result[id], the_solo[1]);
+  }
+  del_raw(t); del_raw(u);
+  sch->digest = (uint64_t)result[3];
+  snprintf(sch->obs, sizeof sch->obs, "rerun ok");
 }
 
 /* join publishes: the joiner reads what the child wrote, immediately after join */
@@ -462,6 +490,10 @@ int main(int argc, char** argv) {
   if (strncmp(scn, "mutex-", 6) == 0) {
     mutex_pattern = strcmp(scn, "mutex-lock") == 0 ? 0 : strcmp(scn, "mutex-trylock") == 0 ? 1 : 2;
     ex.scenario = scn_mutex; ex.site_mask = 0;
+  } else if (strcmp(scn, "rerun") == 0) {
+    the_body = body_exc; the_body_name = "exc"; ex.site_mask = exc_sites | thr_sites;
+    static int64_t solo_r[SCH_MAXT]; the_solo = solo_r; the_solo[1] = seq_ref(1);
+    ex.scenario = scn_rerun;
   } else if (strcmp(scn, "abandon") == 0) {
     ex.scenario = scn_abandon; ex.site_mask = 0;
   } else if (strcmp(scn, "join") == 0) {
@@ -473,7 +505,7 @@ int main(int argc, char** argv) {
     else if (strcmp(b, "exc") == 0) { the_body = body_exc; the_body_name = "exc"; ex.site_mask = exc_sites | (parent ? gc_sites : 0); }
     else if (strcmp(b, "tls") == 0) { the_body = body_tls; the_body_name = "tls"; ex.site_mask = tab_sites | (parent ? gc_sites : 0); }
     else if (strcmp(b, "cont") == 0) { the_body = body_cont; the_body_name = "cont"; ex.site_mask = tab_sites | (parent ? gc_sites : 0); }
-    else if (strcmp(b, "args") == 0) { the_body = body_args; the_body_name = "args"; ex.site_mask = gc_sites | thr_sites; seed_tls = (int)vf_param_i("seed", 0); }
+    else if (strcmp(b, "args") == 0) { the_body = body_args; the_body_name = "args"; ex.site_mask = gc_sites | thr_sites; seed_tls = (int)vf_param_i("seed", 0); heap_args = (int)vf_param_i("heapargs", 0); }
     else if (strcmp(b, "fmt") == 0) { the_body = body_fmt; the_body_name = "fmt"; ex.site_mask = M(CELLO_VP_TYPE_CACHE_READ) | exc_sites; }
     else { fprintf(stderr, "unknown scenario %s\n", scn); _exit(2); }
     static int64_t solo[SCH_MAXT];
